@@ -26,8 +26,13 @@ URL = "http://ofx.bank-a.example/ofx"
 EPOCH1990 = 631152000000
 
 
+ZONES = (0, -210, 345, -570)  # minutes: the server stamps successive profile versions in different zones (UTC, Newfoundland, Nepal, Marquesas)
+
+
 def vdate(v):
-    return datetime.datetime(2020, 1, 1, tzinfo=UTC) + datetime.timedelta(days=v)
+    """the date of profile version v: one day apart, the same instants whatever the zone they are written in"""
+    d = datetime.datetime(2020, 1, 1, tzinfo=UTC) + datetime.timedelta(days=v)
+    return d.astimezone(datetime.timezone(datetime.timedelta(minutes=ZONES[v % 4])))
 
 
 def vms(v):
